@@ -234,8 +234,11 @@ pub fn run_in_child(req: &RunRequest, f: ScenarioFn, wall_limit: Duration) -> Ru
         res.report["oversize_alloc"] = o.clone();
         if res.status == "crash" || res.status == "ok" {
             res.msg = format!(
-                "single allocation of {} bytes (limit {}); then: {}",
-                o["oversize_alloc"], o["limit"], res.msg
+                "{} of {} bytes (limit {}); then: {}",
+                if o.get("live").is_some() { "live allocations adding up to a total" } else { "single allocation" },
+                o["oversize_alloc"],
+                o["limit"],
+                res.msg
             );
             res.status = "violation".into();
             res.oracle = "c08.alloc_out_of_proportion".into();
